@@ -9,7 +9,7 @@ import (
 	"os"
 	"sort"
 	"strings"
-	_ "time"
+	"time"
 
 	"golang.org/x/tools/go/ssa"
 )
@@ -291,6 +291,9 @@ func (c *Ctx) runLoop(fr *frame, l *loopInfo) {
 	if fr.fc != nil {
 		lc = fr.fc.Loops[l.ord]
 	}
+	if c.inlineDepth > 0 {
+		lc = nil // force-inlined for its functional behaviour: unroll, do not cut
+	}
 	if c.bmc > 0 {
 		// bounded search for a replayable counterexample: no loop is cut,
 		// every loop is unrolled c.bmc times from the real entry state and
@@ -343,6 +346,9 @@ func (c *Ctx) runLoop(fr *frame, l *loopInfo) {
 			nxt := c.enterBlock(fr, l.header, back)
 			if nxt == nil {
 				break
+			}
+			if !c.W.initMode && !nxt.pc.IsConst() && (iter == 4 || iter == 8 || iter == 16 || iter == 32) && c.feasChecks < 12 && !c.feasible(nxt.pc) {
+				break // the loop cannot run any longer: unrolling is complete
 			}
 			if !nxt.pc.IsTrue() && !entry.pc.IsConst() && iter > 40 || (!nxt.pc.IsTrue() && iter > 300) {
 				ok = false
@@ -1301,4 +1307,19 @@ func (w *World) indexAST(files []*ast.File) {
 			return true
 		})
 	}
+}
+
+// feasible asks the solver whether a path condition is satisfiable under the
+// facts collected so far (used to finish the unrolling of bounded loops whose
+// exit condition is symbolic). Unknown counts as feasible.
+func (c *Ctx) feasible(pc *Term) bool {
+	if tmpDir == "" {
+		return true
+	}
+	c.feasChecks++
+	as := relevant(c.assumes, []*Term{pc})
+	as = append(as, pc)
+	q := BuildQuery(as, False, nil)
+	r := solveModel(q, 1*time.Second)
+	return r.status != "unsat"
 }
